@@ -11,9 +11,12 @@ mod alloc;
 mod checks;
 mod ctx;
 mod driver;
+mod icd;
 mod rng;
 mod s3sim;
+mod streamsim;
 mod tape;
+mod workload;
 
 use ctx::Tier;
 
